@@ -73,6 +73,40 @@ def run(rep, M, rid, scope=None):
                                   M.where(fq, call))
                 else:
                     rep.ok(rid, construct)
+    # return-shape conformance: `a, b, c = f(...)` needs every return of f to yield that many values
+    nu = 0
+    for fq, sites in M.call_sites.items():
+        if scope is not None and fq not in scope:
+            continue
+        fn = M.defs.get(fq)
+        if fn is None:
+            continue
+        site_of = {id(call): callees for call, callees in sites}
+        for st in ast.walk(fn):
+            if not (isinstance(st, ast.Assign) and len(st.targets) == 1 and isinstance(st.targets[0], (ast.Tuple, ast.List))
+                    and isinstance(st.value, ast.Call) and id(st.value) in site_of):
+                continue
+            tgt = st.targets[0]
+            if any(isinstance(e, ast.Starred) for e in tgt.elts):
+                continue
+            want = len(tgt.elts)
+            for callee in site_of[id(st.value)]:
+                cd = M.defs.get(callee)
+                if not isinstance(cd, ast.FunctionDef):
+                    continue
+                own = [r for r in M.own_nodes(callee) if isinstance(r, ast.Return) and r.value is not None]
+                tups = [r for r in own if isinstance(r.value, ast.Tuple) and not any(isinstance(e, ast.Starred) for e in r.value.elts)]
+                if not tups or len(tups) != len(own):
+                    continue        # a non-literal return: the shape is a run-time matter (the flag-dependent wrappers have their own rule)
+                nu += 1
+                bad = [r for r in tups if len(r.value.elts) != want]
+                construct = f"{fq.replace('matid.', '')}: `{norm(tgt)[:50]} = {callee.split('.')[-1]}(...)`"
+                if bad:
+                    rep.violation(rid, construct, f"unpacks {want} values but `{norm(bad[0])[:60]}` (line {bad[0].lineno}) returns {len(bad[0].value.elts)}: "
+                                  "ValueError (not enough / too many values to unpack) whenever that return is taken", M.where(callee, bad[0]))
+                else:
+                    rep.ok(rid, construct + f" [{len(tups)} return(s) of {want} values]")
+    rep.count("tuple_unpacking_call_sites", nu)
     rep.count("call_expressions", n)
     rep.count("calls_resolved_to_repo_definitions", res)
     return res
